@@ -143,6 +143,13 @@ def probeMatchesWalk (m : PMem) (p4 : Word) (va : Nat) (obs : List Nat) : Bool :
       (if x.size == 2^30 then k1 == 0 && f1 == x.base else k1 != 0)
   | _ => false
 
+/-- Same mapping (frame, size, offset, leaf flags); effective rights may differ. -/
+def sameMapping (a b : Option Xlat) : Bool :=
+  match a, b with
+  | none, none => true
+  | some x, some y => x.base == y.base && x.size == y.size && x.off == y.off && x.flags == y.flags
+  | _, _ => false
+
 /-- Frames that are page tables of the hierarchy rooted at `p4` (levels 4..1). -/
 def tableFrames (m : PMem) (p4 : Word) : List Word :=
   let l3 := (List.range 512).filterMap fun i => match slotOf 4 (m p4 i) with | .table t => some t | _ => none
@@ -344,7 +351,7 @@ def handleMapper : SHandler MState := fun _cfg op a impl st =>
           outcomeOk doc obsOutcome isErr &&
           (if isErr then
              -- no translation changes on the probes …
-             probes.all (fun va => walk imPost p4 va == walk imPre p4 va) &&
+             probes.all (fun va => sameMapping (walk imPost p4 va) (walk imPre p4 va)) &&
              -- … and every changed word is a new table's word, the link to a new table, or an
              -- existing parent entry that only gained the requested parent flags
              obs.changes.all (fun (f, i, v) =>
@@ -370,7 +377,7 @@ def handleMapper : SHandler MState := fun _cfg op a impl st =>
         let c10 :=
           if opcode < 9 then true else
             obs.allocs == 0 &&
-            probes.all (fun va => walk imPost p4 va == walk imPre p4 va) &&
+            probes.all (fun va => sameMapping (walk imPost p4 va) (walk imPre p4 va)) &&
             -- each deallocated frame was a level-1..3 table before, exactly once, never the P4 frame
             obs.deallocs.all (fun f => preTables.contains (w f) && w f != p4) &&
             obs.deallocs.eraseDups.length == obs.deallocs.length &&
